@@ -1191,6 +1191,9 @@ class SegmentationImage:
                [7, 7, 0, 5, 5, 5],
                [7, 7, 0, 0, 5, 5]])
         """
+        # a non-boolean (e.g., 0/1 integer) mask must not be used as an
+        # index array
+        mask = np.asarray(mask, dtype=bool)
         if mask.shape != self.shape:
             raise ValueError('mask must have the same shape as the '
                              'segmentation array')
